@@ -44,6 +44,8 @@ type siteInfo struct {
 	Kind string `json:"kind"`
 }
 
+var stdImporter types.Importer
+
 var (
 	points []pointInfo
 	sites  []siteInfo
@@ -63,9 +65,11 @@ func main() {
 	replace := map[string]string{}
 
 	// package otp: everything
-	instrumentPkg(*repo, ".", "otp", *out, replace, true)
-	// REST layer: statement points (+ comparison hooks on syntactic grounds)
-	instrumentPkg(*repo, "internal/app/api", "api", *out, replace, false)
+	instrumentPkg(*repo, ".", "otp", *out, replace, true, false)
+	// REST layer: statement points + comparison hooks (types of module dependencies stay unresolved, which is tolerated)
+	instrumentPkg(*repo, "internal/app/api", "api", *out, replace, false, false)
+	// the WebAssembly binding's Go code, made runnable natively over a fake syscall/js
+	instrumentPkg(*repo, "wasm", "main", *out, replace, false, true)
 
 	// runtime package as a virtual package of the repository
 	filepath.Walk(*rt, func(p string, fi os.FileInfo, err error) error {
@@ -89,7 +93,29 @@ func must(err error) {
 	}
 }
 
-func instrumentPkg(repo, rel, pkgName, out string, replace map[string]string, full bool) {
+// multiImporter resolves the library from the pass that already checked it, the standard
+// library from source, and gives every other (module dependency) path an empty package.
+type multiImporter struct {
+	known map[string]*types.Package
+	std   types.Importer
+}
+
+func (m *multiImporter) Import(path string) (*types.Package, error) {
+	if p, ok := m.known[path]; ok {
+		return p, nil
+	}
+	first := strings.SplitN(path, "/", 2)[0]
+	if !strings.Contains(first, ".") {
+		return m.std.Import(path)
+	}
+	p := types.NewPackage(path, filepath.Base(path))
+	p.MarkComplete()
+	return p, nil
+}
+
+var knownPkgs = map[string]*types.Package{}
+
+func instrumentPkg(repo, rel, pkgName, out string, replace map[string]string, full, wasmMain bool) {
 	dir := filepath.Join(repo, rel)
 	ents, err := os.ReadDir(dir)
 	must(err)
@@ -117,15 +143,24 @@ func instrumentPkg(repo, rel, pkgName, out string, replace map[string]string, fu
 		}
 		files = append(files, srcFile{p, src, f})
 	}
-	var info *types.Info
-	if full {
-		info = &types.Info{Types: map[ast.Expr]types.TypeAndValue{}, Uses: map[*ast.Ident]types.Object{}, Defs: map[*ast.Ident]types.Object{}}
-		conf := types.Config{Importer: importer.ForCompiler(fset, "source", nil), Error: func(error) {}, FakeImportC: true}
+	info := &types.Info{Types: map[ast.Expr]types.TypeAndValue{}, Uses: map[*ast.Ident]types.Object{}, Defs: map[*ast.Ident]types.Object{}}
+	{
+		if stdImporter == nil {
+			stdImporter = importer.ForCompiler(token.NewFileSet(), "source", nil)
+		}
+		conf := types.Config{Importer: &multiImporter{knownPkgs, stdImporter}, Error: func(error) {}, FakeImportC: true}
 		var afs []*ast.File
 		for _, sf := range files {
 			afs = append(afs, sf.f)
 		}
-		conf.Check("github.com/ja7ad/otp", fset, afs, info) // errors tolerated: partial info is enough
+		ipath := "github.com/ja7ad/otp"
+		if rel != "." {
+			ipath += "/" + rel
+		}
+		pkg, _ := conf.Check(ipath, fset, afs, info) // errors tolerated: partial info is enough
+		if pkg != nil && full {
+			knownPkgs[ipath] = pkg
+		}
 	}
 	var globals []string
 	for _, sf := range files {
@@ -139,8 +174,17 @@ func instrumentPkg(repo, rel, pkgName, out string, replace map[string]string, fu
 		relName, _ := filepath.Rel(repo, sf.path)
 		used := false
 
-		// build constraints: js && wasm files of package otp become verif-only native files
-		if full {
+		if wasmMain {
+			add(off(sf.f.Name.Pos()), len(sf.f.Name.Name), "verifwasm", false)
+			for _, d := range sf.f.Decls {
+				if fd, ok := d.(*ast.FuncDecl); ok && fd.Recv == nil && fd.Name.Name == "main" {
+					add(off(fd.Name.Pos()), 4, "verifMainUnused", false)
+				}
+			}
+			add(len(sf.src), 0, "\n// VerifRegister registers the binding's functions with the fake global object.\nfunc VerifRegister() { registerFunctions() }\n", false)
+		}
+		// build constraints: js && wasm files become verif-only native files
+		if full || wasmMain {
 			lines := strings.SplitN(string(sf.src), "\n", 3)
 			if len(lines) > 0 && strings.HasPrefix(lines[0], "//go:build") && strings.Contains(lines[0], "wasm") {
 				add(0, len(lines[0]), "//go:build verif", false)
@@ -155,6 +199,13 @@ func instrumentPkg(repo, rel, pkgName, out string, replace map[string]string, fu
 				name = im.Name.Name
 			}
 			pkgAlias[name] = path
+			if path == "syscall/js" && wasmMain {
+				if im.Name == nil {
+					add(off(im.Path.Pos()), len(im.Path.Value), `js "`+rtPath+`/fakejs"`, false)
+				} else {
+					add(off(im.Path.Pos()), len(im.Path.Value), `"`+rtPath+`/fakejs"`, false)
+				}
+			}
 			if path == "sync" && full {
 				if im.Name == nil {
 					add(off(im.Path.Pos()), len(im.Path.Value), `sync "`+rtPath+`/vsync"`, false)
@@ -243,7 +294,14 @@ func instrumentPkg(repo, rel, pkgName, out string, replace map[string]string, fu
 		}
 		outPath := filepath.Join(out, pkgName+"__"+filepath.Base(sf.path))
 		must(os.WriteFile(outPath, apply(sf.src, sp), 0o644))
-		replace[sf.path] = outPath
+		if wasmMain {
+			replace[filepath.Join(repo, "internal/verifwasm", filepath.Base(sf.path))] = outPath
+		} else if strings.HasSuffix(sf.path, "_wasm.go") || strings.HasSuffix(sf.path, "_js.go") {
+			// the file NAME carries an implicit GOOS/GOARCH constraint: offer the rewritten copy under a neutral name
+			replace[strings.TrimSuffix(sf.path, ".go")+"_verifnative.go"] = outPath
+		} else {
+			replace[sf.path] = outPath
+		}
 	}
 	if full {
 		sort.Strings(globals)
